@@ -17,7 +17,7 @@ def main():
     from harness import drive_simstats as ds
     from pydsol.core.pubsub import EventListener, EventProducer, EventType
     from pydsol.core.simevent import SimEvent
-    from pydsol.core.streams import MersenneTwister, StreamSeedUpdater
+    from pydsol.core.streams import MersenneTwister, StreamSeedUpdater, StreamInformation
     from pydsol.core.distributions import DistExponential, DistNormal, DistUniform, DistTriangular
     from pydsol.core.interfaces import SimulatorInterface
 
@@ -35,6 +35,9 @@ def main():
         return [EventType(f"JUNK_{i}") for i in range(n)]
     junk.append(mk_types(plan["prior_types"]))
     junk.append({f"s{i}" for i in range(plan["prior_strings"])})
+    # an unrelated earlier study in this process used the default stream of its own StreamInformation
+    other = StreamInformation()
+    junk.append([other.get_stream("default").next_float() for _ in range(plan.get("prior_draws", 0))])
     FAN = EventType("VERIF_FANOUT")
     ps = []         # publish/subscribe trace of the fan-out producer (TracePubSub.tla vocabulary)
     eid = [0]
@@ -86,11 +89,14 @@ def main():
         def __init__(self, sim, ctl):
             super().__init__(sim, ctl)
             # the streams belong to the model and are re-seeded for every replication
-            self.streams = {"main": MersenneTwister(101), "prio": MersenneTwister(12), "clock": MersenneTwister(13)}
+            # (seed 0 is a seed like any other; "clock" is not in the seed table: the fallback updater serves it)
+            self.streams = {"main": MersenneTwister(101), "prio": MersenneTwister(12), "clock": MersenneTwister(0)}
             self.updater = StreamSeedUpdater({"main": [101, 202], "prio": [303, 404]})
 
         def construct_model(self):
             self.updater.update_seeds(self.streams, model_cfg["replication_nr"])
+            # the model's own stream information, new for every replication: its default stream is used as delivered (fixed documented seed)
+            self.info = StreamInformation()
             s = self.streams["main"]
             self.dist_delay = [DistExponential(s, 0.8), DistUniform(s, 0.0, 2.5), DistTriangular(s, 0.0, 0.5, 2.0), DistNormal(self.streams["prio"], 1.0, 0.5)]
             self.pending_ops, self.tally_values, self.tc_draws = [], [], []
@@ -108,10 +114,12 @@ def main():
             # observations are random: the statistics digest then compares every draw bit for bit
             u = self.streams["main"].next_float()
             self.src.fire(ds.ObsTypes.C, 1 + int(u * 3))
-            self.src.fire(ds.ObsTypes.T, u)
+            self.src.fire(ds.ObsTypes.T, u + self.info.get_stream("default").next_float())
             self.src.fire(ds.ObsTypes.W, (float(int(u * 4)), u * 10))
             # the "clock" stream has no configured seed list: it is served by the fallback updater
-            self.src.fire(ds.ObsTypes.P, float(int(self.streams["clock"].next_float() * 5)))
+            v = float(int(self.streams["clock"].next_float() * 5))
+            if u > 0.45:       # the persistent is NOT observed at every event: a pause can then fall strictly inside an observation interval
+                self.src.fire(ds.ObsTypes.P, v)
             self.ctl.on_handler(k)
 
     def prog_gen(rank, ctl):
